@@ -94,7 +94,7 @@ def pad_sweep(u, case):
             inner = el.d.name if isinstance(el, Adt) else ('z0' if isinstance(el, Array) and not isinstance(el.t, Str) else 's0')
             item = {'KZE2': lambda n: '#0(),#1(%d,),#2(%d,),' % (n % 256, 1000 + n), 'KZ8': lambda n: '{%d,%d,},{7,8,},' % (n, 1000 + n),
                     'KZ6': lambda n: '{%d,},{9,},' % (n % 256), 'z0': lambda n: '[],[],[],', 's0': lambda n: '[],[],',
-                    'KZ10': lambda n: '{{[%d,2,],},%d,},{{[3,4,],},5,},{{[6,7,],},8,},' % (n, n)}[inner]
+                    'KZ10': lambda n: '{{[%d,2,],},%d,},{{[3,4,],},5,},{{[6,7,],},8,},' % (n, n), 'KZV': lambda n: '{[],{},},{[],{},},'}[inner]
             for n in range(64 if inner in ('KZ8', 'KZ6') else 16):
                 case(i, 0, '-', '{s"%s",[%s],%d,}' % ('41' * n, item(n), n % 256), 'pad-sweep')
         # KD6 { s: String, a: KZ9 (align 128), t: u8, b: KZ9, v: Vec<KZ9> }: every padding length 0..127, twice in a row
@@ -442,7 +442,7 @@ def gen_cases(prop, u, seed, tier, probe=None):
         si = [i for i, t in enumerate(u.types) if isinstance(t, Seq) and isinstance(t.t, Str)]
         if si:
             i = si[0]
-            for n in range(64 if not quick else 32):
+            for n in list(range(64 if not quick else 32)) + list(range(3985, 4015)) + ([] if quick else list(range(8080, 8112))):
                 v = '[s"%s",s"6869",]' % ('41' * n)
                 for l in loaders:
                     cs.add('load %d %s 0 %s' % (i, l, v), kind='load', ti=i, val=v, loader=l, flags=0, family='residue-' + l)
@@ -472,6 +472,9 @@ def gen_cases(prop, u, seed, tier, probe=None):
                 # a transient failure: the sink refuses one call after k bytes and accepts everything afterwards
                 # (it obeys the Write contract); the serializer must stop at the first error all the same
                 cs.add('wfail %d k=%d,once=1,ff=0 %s' % (i, k, v), kind='wfail', ti=i, val=v, k=k, total=n, ff=False, family='transient-fail-at-k')
+                if k % 3 == 0:
+                    # a sink that accepts no more bytes without reporting an error: write returns Ok(0) (write_all turns it into WriteZero)
+                    cs.add('wfail %d k=%d,zero=1,ff=0 %s' % (i, k, v), kind='wfail', ti=i, val=v, k=k, total=n, ff=False, family='write-zero-at-k')
             cs.add('wfail %d k=-,m=1,int=2,ff=0 %s' % (i, v), kind='wfail', ti=i, val=v, k=None, total=n, ff=False, family='split-retry')
             cs.add('wfail %d k=-,m=5,int=3,ff=0 %s' % (i, v), kind='wfail', ti=i, val=v, k=None, total=n, ff=False, family='split-retry')
             cs.add('wfail %d k=-,ff=1 %s' % (i, v), kind='wfail', ti=i, val=v, k=None, total=n, ff=True, family='flush-fail')
